@@ -17,7 +17,7 @@ LEVEL_TEXT = (
     'in-boundary state is evaluated. The equivalence itself is an argument over these clauses, not a '
     'computation.')
 
-FLOORS = {'C02-R1': 16, 'C02-R2': 12, 'C02-R3': 9, 'C02-R4': 4, 'C02-R5': 10, 'C01-R1': 3, 'C01-R2': 3,
+FLOORS = {'C02-R1': 20, 'C02-R2': 12, 'C02-R3': 9, 'C02-R4': 4, 'C02-R5': 10, 'C01-R1': 3, 'C01-R2': 3,
           'C01-R3': 12, 'C01-R4': 8, 'C01-R5': 3, 'C01-R7': 5, 'C01-R9': 3, 'C01-R10': 4, 'C10-R1': 8, 'C10-R3': 5, 'C05-R3': 2, 'C05-R4': 2, 'C05-R5': 3}
 
 
@@ -439,6 +439,8 @@ def run(ctx):
     for strat in ('BFS', 'DFS', 'OD', 'SIM'):
         with ctx.rule('C02-R1', strat):
             r1_polarity(ctx, CB(F, strat))
+            from checkers import no_stray_evaluations
+            no_stray_evaluations(ctx, CB(F, strat), 'C02-R1')
         with ctx.rule('C02-R2', strat):
             r2_all_properties(ctx, CB(F, strat))
         with ctx.rule('C02-R4', strat):
